@@ -244,3 +244,6 @@ Ltac const_dec :=
   | |- context [Z.eqb ?a ?b] => is_const a; is_const b;
       let v := eval vm_compute in (Z.eqb a b) in change (Z.eqb a b) with v
   end; cbv iota; cbn [orb andb negb].
+
+Lemma bind_eq {A B} (m : world -> res A) (f : A -> world -> res B) w a w' : m w = Ok a w' -> bind m f w = f a w'.
+Proof. unfold bind. intros ->. reflexivity. Qed.
